@@ -3,6 +3,7 @@
 package main
 
 import (
+	"strings"
 	"context"
 	"crypto/rand"
 	"fmt"
@@ -116,6 +117,23 @@ func runC08(e *Env) {
 			pairs = append(pairs, cc{a, b})
 		}
 	}
+	// codes of every length class, differing at one position only (first, middle,
+	// last byte) or by one byte of length: nothing may depend on a prefix
+	for _, L := range []int{16, 31, 32, 33, 40, 63, 64, 65, 128, 200, 1000} {
+		b := []byte(strings.Repeat("K7QX2M9ZPA4WDE6R", L/16+1)[:L])
+		base := string(b)
+		var vars []string
+		for _, pos := range []int{0, L / 2, L - 2, L - 1} {
+			v := append([]byte(nil), b...)
+			v[pos] ^= 0x01
+			vars = append(vars, string(v))
+		}
+		vars = append(vars, base+"A", base[:L-1])
+		pairs = append(pairs, cc{base, base})
+		for _, v := range vars {
+			pairs = append(pairs, cc{base, v}, cc{v, base})
+		}
+	}
 	vk.ParallelDo(len(pairs)*e.Pick(2, 10), 16, func(i int) {
 		c := pairs[i%len(pairs)]
 		p := pair()
@@ -126,7 +144,7 @@ func runC08(e *Env) {
 		defer p.Close()
 		o := authBoth(p, c.a, c.b, nil, nil)
 		e.R.Eval()
-		e.R.Distinct(fmt.Sprintf("codes/%q/%q", c.a, c.b))
+		e.R.Distinct(fmt.Sprintf("codes/%d:%08x/%d:%08x", len(c.a), vk.HashStr(c.a)&0xffffffff, len(c.b), vk.HashStr(c.b)&0xffffffff))
 		if i < 3 {
 			e.R.Sample(map[string]any{"scenario": "codes", "sender_code": c.a, "receiver_code": c.b, "sender_err": errS(o.SendErr), "receiver_err": errS(o.RecvErr)})
 		}
@@ -150,7 +168,15 @@ func runC08(e *Env) {
 		}
 		note("different_codes")
 		if o.SendErr == nil || o.RecvErr == nil {
-			e.R.Violate("different-codes:accepted", fmt.Sprintf("codes %q vs %q: sender err=%v receiver err=%v (an honest end accepted)", c.a, c.b, o.SendErr, o.RecvErr), map[string]any{"sender_code": c.a, "receiver_code": c.b}, nil)
+			key := "different-codes:accepted"
+			cp := 0
+			for cp < len(c.a) && cp < len(c.b) && c.a[cp] == c.b[cp] {
+				cp++
+			}
+			if cp >= 16 {
+				key = "different-codes:accepted:long-codes-with-a-common-prefix"
+			}
+			e.R.Violate(key, fmt.Sprintf("codes of %d and %d bytes with a common prefix of %d bytes: sender err=%v receiver err=%v (an honest end accepted)", len(c.a), len(c.b), cp, o.SendErr, o.RecvErr), map[string]any{"sender_code": c.a, "receiver_code": c.b}, nil)
 		}
 	})
 
